@@ -95,6 +95,7 @@ def _recv_start(m, dot):
 class Rewriter:
     def __init__(self):
         self.counts = {}
+        self.w9_skip = None   # regex: `E?` whose E matches keeps its `?` (same error type, no conversion)
 
     def hit(self, rule, n=1):
         if n:
@@ -184,7 +185,7 @@ class Rewriter:
         return res
 
     # ---- W2: and_then / map with a closure capturing &mut -> match -------------
-    def w2_and_then_remove(self, text):
+    def w2(self, text):
         """`E.and_then(|p| B)`  ->  `match E { Some(p) => B, None => None }`  (Option receiver only;
         applied to receivers that are calls of `linear_search_by_key`, whose result type is Option<usize>)."""
         n = 0
@@ -208,6 +209,45 @@ class Rewriter:
                 break
         self.hit('W2', n)
         return text
+
+    def _closure_to_match(self, text, method, some_arm, none_arm, rule, only_if=None):
+        n = 0
+        while True:
+            done = True
+            for (rs, dot, op, cl) in self._method_calls(text, method):
+                arg = text[op + 1:cl].strip()
+                cm = re.match(r'\|\s*(' + IDENT + r')\s*\|\s*(.*)$', arg, re.S)
+                if not cm:
+                    continue   # a path argument (fn item): Verus reads those
+                recv = text[rs:dot].strip()
+                if only_if and not only_if(recv):
+                    continue
+                p_, body = cm.group(1), cm.group(2).strip()
+                rt = re.match(r'->\s*[\w:<>]+\s*(\{.*)$', body, re.S)
+                if rt:
+                    body = rt.group(1)
+                text = text[:rs] + '(match %s { %s, %s })' % (recv, some_arm % (p_, body), none_arm) + text[cl + 1:]
+                n += 1
+                done = False
+                break
+            if done:
+                break
+        self.hit(rule, n)
+        return text
+
+    # ---- W2m / W2a: Option::map / Option::and_then with a closure -> match ------
+    def w2m(self, text):
+        return self._closure_to_match(text, 'map', 'Some(%s) => Some(%s)', 'None => None', 'W2m')
+
+    def w2a(self, text):
+        return self._closure_to_match(text, 'and_then', 'Some(%s) => %s', 'None => None', 'W2a')
+
+    # ---- W2r / W2ra: Result::map / Result::and_then with a closure -> match -----
+    def w2r(self, text):
+        return self._closure_to_match(text, 'map', 'Ok(%s) => Ok(%s)', 'Err(e__) => Err(e__)', 'W2r')
+
+    def w2ra(self, text):
+        return self._closure_to_match(text, 'and_then', 'Ok(%s) => %s', 'Err(e__) => Err(e__)', 'W2ra')
 
     # ---- W3: binary operator applied to a reference ----------------------------
     def w3(self, text):
@@ -251,6 +291,31 @@ class Rewriter:
         self.hit('W5', n)
         return text
 
+    # ---- W9: `E?` with an error conversion -> explicit match + From::from -------
+    def w9(self, text):
+        """`E?` -> `(match E { Ok(v__) => v__, Err(e__) => return Err(From::from(e__)) })`.
+        Verus gives `?` no specification for the `From` conversion of the error; the explicit call does.
+        Must only be applied in functions where every `?` converts between different error types."""
+        n = 0
+        while True:
+            m = mask(text)
+            k = -1
+            for i, ch in enumerate(m):
+                if ch == '?':
+                    rs = _recv_start(m, i)
+                    if self.w9_skip and re.search(self.w9_skip, text[rs:i]):
+                        continue
+                    k = i
+                    break
+            if k < 0:
+                break
+            rs = _recv_start(m, k)
+            recv = text[rs:k].strip()
+            text = text[:rs] + '(match %s { Ok(v__) => v__, Err(e__) => return Err(From::from(e__)) })' % recv + text[k + 1:]
+            n += 1
+        self.hit('W9', n)
+        return text
+
     # ---- W10: generic ack::<R> -> monomorphic name ------------------------------
     def w10(self, text):
         t, k = re.subn(r'\bSelf::ack::<\s*(\w+)\s*>\s*\(', r'Self::ack_\1(', text)
@@ -259,7 +324,7 @@ class Rewriter:
 
     def apply(self, text, rules):
         for r in rules:
-            fn = getattr(self, r, None)
+            fn = getattr(self, r.lower(), None)
             if fn is None:
                 raise Unsupported('unknown rewrite rule ' + r)
             text = fn(text)
